@@ -77,6 +77,20 @@ func c08Run(c *bx.Ctx, k c08case, opt ref.Opt) {
 	c.Sample(func() interface{} { return map[string]interface{}{"limit": k.limit, "case": k.desc, "octets": len(b)} })
 }
 
+// sameModuloFree compares pion's bytes with the reference encoding, ignoring the octets the
+// reference marks as free (padding content).
+func sameModuloFree(b []byte, w *ref.W) bool {
+	if len(b) != len(w.B) {
+		return false
+	}
+	for i := range b {
+		if b[i] != w.B[i] && !w.Free[i] {
+			return false
+		}
+	}
+	return true
+}
+
 func pow2set(maxBits uint) []uint64 {
 	seen := map[uint64]bool{}
 	var out []uint64
@@ -468,6 +482,18 @@ func runC08(c *bx.Ctx) {
 			return p
 		}})
 	}
+	// one chunk of 1019 items of 255 octets and a last item of 250 octets is exactly 262144 octets; 251 needs a word more
+	for _, last := range []int{246, 250, 251, 255} {
+		last := last
+		bigs = append(bigs, big{fmt.Sprintf("SourceDescription with one chunk of 1019 items of 255 octets and one of %d", last), func() rtcp.Packet {
+			k := rtcp.SourceDescriptionChunk{Source: 7}
+			for i := 0; i < 1019; i++ {
+				k.Items = append(k.Items, rtcp.SourceDescriptionItem{Type: rtcp.SDESNote, Text: strings.Repeat("t", 255)})
+			}
+			k.Items = append(k.Items, rtcp.SourceDescriptionItem{Type: rtcp.SDESCNAME, Text: strings.Repeat("c", last)})
+			return &rtcp.SourceDescription{Chunks: []rtcp.SourceDescriptionChunk{k}}
+		}})
+	}
 	for _, nb := range []int{7, 8, 9, 16} {
 		nb := nb
 		bigs = append(bigs, big{fmt.Sprintf("CCFeedbackReport with %d blocks of 16384 metric blocks", nb), func() rtcp.Packet {
@@ -478,6 +504,18 @@ func runC08(c *bx.Ctx) {
 			return p
 		}})
 	}
+	// seven full blocks and an eighth of n metric blocks: n = 16346 gives exactly 262144 octets
+	for _, n := range []int{16342, 16344, 16346, 16348, 16350} {
+		n := n
+		bigs = append(bigs, big{fmt.Sprintf("CCFeedbackReport with 7 blocks of 16384 metric blocks and one of %d", n), func() rtcp.Packet {
+			p := &rtcp.CCFeedbackReport{SenderSSRC: 1}
+			for i := 0; i < 7; i++ {
+				p.ReportBlocks = append(p.ReportBlocks, rtcp.CCFeedbackReportBlock{MediaSSRC: uint32(i), MetricBlocks: make([]rtcp.CCFeedbackMetricBlock, 16384)})
+			}
+			p.ReportBlocks = append(p.ReportBlocks, rtcp.CCFeedbackReportBlock{MediaSSRC: 7, MetricBlocks: make([]rtcp.CCFeedbackMetricBlock, n)})
+			return p
+		}})
+	}
 	for _, g := range bigs {
 		if !c.Mine() {
 			continue
@@ -485,18 +523,32 @@ func runC08(c *bx.Ctx) {
 		p := g.mk()
 		b, err, pan := safeMarshal(p)
 		c.T(1)
-		rp := bx.Replay{Entry: "Marshal", Ops: g.name, Expected: "an error and no bytes, or bytes whose length field equals their size in words minus one"}
+		rp := bx.Replay{Entry: "Marshal", Ops: g.name, Expected: "the reference bytes up to 262144 octets; an error and no bytes above"}
 		typ := TypeName(p)
+		// the reference encoder gives the size the packet needs (and, when it fits, the bytes)
+		want, rerr := ref.Encode(p, opt)
+		// (the probes are well-formed apart from their size, so the reference refuses exactly those
+		// that need more than 65536 words)
+		fits := rerr == nil && len(want.B) <= 4*65536
 		switch {
+		case pan == "" && fits && err != nil:
+			rp.Observed = "error: " + err.Error()
+			c.Report(keyJoin("C08/length-field", typ, "fitting-size-rejected"), fmt.Sprintf("Marshal refuses a packet of %d octets, which the length field can express", len(want.B)), rp)
+		case pan == "" && fits && err == nil && sameModuloFree(b, want):
+			c.NT()
+			c.Note(fmt.Sprintf("length-field: %s -> %d octets", g.name, len(b)))
+		case pan == "" && fits && !sameModuloFree(b, want):
+			rp.Observed = fmt.Sprintf("%d octets starting %s", len(b), bx.Short(b))
+			c.Report(keyJoin("C08/length-field", typ, "bytes"), "Marshal output for a packet near the largest size differs from the reference encoding", rp)
+		case pan == "" && !fits && err == nil:
+			rp.Observed = fmt.Sprintf("%d octets starting %s", len(b), bx.Short(b))
+			c.Report(keyJoin("C08/length-field", typ, "wrapped"), "Marshal succeeds on a packet larger than the length field can express: the length field is wrapped", rp)
 		case pan != "":
 			rp.Observed = "panic: " + pan
 			c.Report(keyJoin("C08/length-field", typ, "panic"), "Marshal panics on a packet near the largest expressible size", rp)
 		case err != nil && len(b) != 0:
 			rp.Observed = bx.Short(b)
 			c.Report(keyJoin("C08/length-field", typ, "bytes-with-error"), "Marshal returns bytes together with an error", rp)
-		case err == nil && (len(b) < 4 || len(b)%4 != 0 || (int(b[2])<<8|int(b[3])+1)*4 != len(b)):
-			rp.Observed = fmt.Sprintf("%d octets starting %s", len(b), bx.Short(b))
-			c.Report(keyJoin("C08/length-field", typ, "wrapped"), "Marshal succeeds on a packet larger than the length field can express: the length field is wrapped", rp)
 		default:
 			c.NT()
 			c.Note(fmt.Sprintf("length-field: %s -> error=%v", g.name, err != nil))
